@@ -266,6 +266,11 @@ func (x *fnv) applyContract(s *State, fc *FuncContract, declSig *types.Signature
 		top := c.Fresh("top", SInt)
 		s.Assume(c.Ge(top, s.allocTop))
 		s.allocTop = top
+		// what the callee stored refers to objects existing when it returned
+		for _, rb := range x.pendingRaw {
+			c.SetBaseTop(rb, top)
+		}
+		x.pendingRaw = nil
 	}
 	// results
 	res := make([]Value, callSig.Results().Len())
@@ -336,7 +341,9 @@ func (x *fnv) havocTarget(s *State, tg modTarget, tag string) {
 	for _, rn := range x.regionsWithPrefix(s, tg.prefix) {
 		m := s.mem[rn]
 		match := tg.match
-		s.mem[rn] = x.c.Havoc(m, tag, func(ref, idx *Term) *Term { return x.c.Not(match(ref, idx)) })
+		hm := x.c.Havoc(m, tag, func(ref, idx *Term) *Term { return x.c.Not(match(ref, idx)) })
+		x.pendingRaw = append(x.pendingRaw, hm.RawOf())
+		s.mem[rn] = hm
 	}
 }
 
